@@ -307,12 +307,21 @@ class Run:
             if b not in pending:
                 self.limbo.discard(b)       # reclaimed (or must be: P1 below)
         per = collections.defaultdict(list)
+        arenas = self.arenas
         for b, req in self.live.items():
-            msg = self.check_block(b, req)
-            if msg:
-                return 'live block: ' + msg
-            if b[1] < b[2]:
-                per[b[0].index].append((b[1], b[2], 'live'))
+            # L1-L3 for every live block in every state (fast path; the
+            # slow path words the message)
+            try:
+                a, s0, e0 = b
+                ok = (arenas[a.index] is a and not s0 & 7 and
+                      e0 - s0 >= req and 0 <= s0 <= e0 <= a.size)
+            except Exception:                           # noqa
+                ok = False
+            if not ok:
+                return 'live block: ' + (self.check_block(b, req) or
+                                         'malformed %r' % (b,))
+            if s0 < e0:
+                per[a.index].append((s0, e0, 'live'))
         for b in pending:
             per[b[0].index].append((b[1], b[2], 'pending'))
         for b in free:
@@ -383,6 +392,13 @@ class Run:
                       for n, seq in sorted(h._len_to_seq.items())),
                 None if alloc == live else alloc,
                 tuple(map(norm, h._pending_free_blocks)))
+
+
+def progress(*a):
+    import os
+    if os.environ.get('VMC_PROGRESS'):
+        print('[c14 %s]' % time.strftime('%H:%M:%S'), *a, file=sys.stderr,
+              flush=True)
 
 
 def overlap(b1, b2):
@@ -561,6 +577,8 @@ def bfs(depth, diff_set, seed):
         res['depth'] = d + 1
         res['states'] = len(seen)
         res['per_level'].append(nnew)
+        progress('bfs level', d + 1, 'states', len(seen), 'transitions',
+                 res['transitions'])
         if res['violation']:
             break
         if nxt:
@@ -764,7 +782,8 @@ def _conc_subtree(arg):
 
 def conc_configs(tier):
     thorough = tier == 'thorough'
-    b = 3 if thorough else 2
+    b = 3 if thorough else 2          # two-thread configurations
+    b3 = 2                            # three-thread configurations
     P, O = 'p', 'o'
     cfgs = [
         # two frees of neighbouring blocks, each followed by a malloc
@@ -786,12 +805,12 @@ def conc_configs(tier):
                        [['m', 24], ['f', P, 0]]]), b),
         # three threads, one operation each
         (dict(pre=[24, 24, 24, 24], prefree=[],
-              threads=[[['f', P, 0]], [['f', P, 1]], [['m', 16]]]), b),
+              threads=[[['f', P, 0]], [['f', P, 1]], [['m', 16]]]), b3),
     ]
     if thorough:
         cfgs += [
             (dict(pre=[24, 24, 24], prefree=[1],
-                  threads=[[['m', 24]], [['m', 4096]], [['f', P, 0]]]), b),
+                  threads=[[['m', 24]], [['m', 4096]], [['f', P, 0]]]), b3),
             (dict(pre=[24, 24, 24, 24], prefree=[],
                   threads=[[['f', P, 0], ['m', 24]], [['f', P, 1]],
                            [['f', P, 2], ['m', 48]]]), 2),
@@ -820,12 +839,20 @@ def conc(tier, seed, rep):
     outs = par.pmap('harness.c14:_conc_subtree',
                     [items[i][1] for i in order])
     merged = dict(zip(order, outs))
+    progress('conc done')
     for i in range(len(items)):
         stats[items[i][0]].merge(merged[i])
     total = explore.Stats()
     for ci, (cfg, bound) in enumerate(cfgs):
         st = stats[ci]
         for ch, msg in st.violations[:1]:
+            # a counterexample must be a pure function of its choices
+            linepoints.enable(heap_codes())
+            again = [_run_conc(cfg, ch).violation for _ in range(2)]
+            linepoints.disable()
+            if again != [msg, msg]:
+                raise vs.HarnessError('counterexample does not replay: %r / '
+                                      '%r' % (msg, again))
             rep.violation('%s\nconfig=%r' % (msg, cfg),
                           dict(harness='c14', part='conc', config=cfg,
                                choices=ch))
@@ -1002,7 +1029,7 @@ def _gc_chunk(arg):
                             return out
                     if out['sample'] is None and k == n // 2:
                         out['sample'] = c
-                    if not double:
+                    if not double or len(prefix) > 2:
                         continue
                     # a second finaliser, for another block, at any later
                     # event of the same operation
@@ -1055,6 +1082,7 @@ def gc_part(tier, seed, rep):
         outs = par.pmap('harness.c14:_gc_chunk',
                         [(sorted(ps[c::nchunk]), gran, double, nexts)
                          for c in range(nchunk)])
+        progress('gc', gran, 'done')
         tot = collections.Counter()
         outcomes = collections.Counter()
         sample = None
@@ -1101,6 +1129,18 @@ def main(tier, seed, only=None):
         conc(tier, seed, rep)
     if want('gc'):
         gc_part(tier, seed, rep)
+    rep.cov['rule'] = (
+        'bfs: every history over malloc(s), s in SIZES, and free(k-th live '
+        'block) up to the stated depth, executed on the real Heap, targets '
+        'de-duplicated on the canonical state (states = distinct canonical '
+        'states, transitions = operations executed and checked); conc: every '
+        'interleaving within the preemption bound; gc: every (prefix state, '
+        'operation, victim block, injection point). distinct_nontrivial = '
+        'distinct observed outcomes: kinds of transition (new arena / exact '
+        'reuse / split; free merging with none / previous / next / both '
+        'neighbours), per-thread results and deferred-free counts of the '
+        'concurrent runs, and (operation, injection line, deferred or not, '
+        'arenas) of the re-entrant runs')
     rep.assume(
         'billiard.heap.Arena is replaced by an in-memory object with .size '
         'and .buffer: Heap never touches arena memory, real arenas are the '
